@@ -181,11 +181,9 @@ class Journaler:
                     (seq_no, session.key),
                 )
             elif direction == MessageDirection.INBOUND:
-                # After SequenceReset the session already expects NewSeqNo, which
-                #   is ahead of the message itself
                 self.cursor.execute(
                     "UPDATE session SET inboundSeqNo=? WHERE sessionId = ?",
-                    (max(seq_no, session.next_num_in - 1), session.key),
+                    (seq_no, session.key),
                 )
 
             self.conn.commit()
